@@ -442,7 +442,7 @@ int sqfs_dir_writer_write_export_table(sqfs_dir_writer_t *writer,
 
 	ret = add_export_table_entry(writer, root_inode_num, root_inode_ref);
 	if (ret)
-		return 0;
+		return ret;
 
 	if (writer->export_tbl.data == NULL)
 		return 0;
